@@ -551,8 +551,19 @@ func (r *yieldRewriter) rewriteForStmt(
 		newBody.pushReturn(callCombine, kindCombine)
 		body = newBody
 	} else {
-		// can't declare variable in for-post, name conflict free
+		// can't declare variable in for-post, but the body can declare one that
+		// shadows a name the post refers to: keep the body in a block of its own
 		assert(!isDefineStmt(stmt.Post))
+		declares := false
+		for _, it := range body.block.List {
+			_, isDecl := it.(*ast.DeclStmt)
+			declares = declares || isDecl || isDefineStmt(it)
+		}
+		if declares {
+			scoped := mkBlock(body.kind)
+			scoped.push(body.block, kindTrival)
+			body = scoped
+		}
 		body.markCombined()
 		r.rewriteStmt(stmt.Post, true, body)
 	}
